@@ -65,9 +65,7 @@ func c16Gen(tier string, seed int64) []core.Case {
 	add := func(kind, sub string, cost float64, p core.P) {
 		cs = append(cs, core.Case{ID: kind + "/" + sub, Class: kind + "/" + sub, Kind: kind, P: p, Cost: cost})
 	}
-	for first := 0; first < 4; first++ { // split the byte-tuple space by the first element's class to use 4 workers
-		add("bytes-exhaustive", fmt.Sprint("part", first), 3, core.P{"part": first})
-	}
+	add("bytes-exhaustive", "all", 4, core.P{"part": -1})
 	add("ints-exhaustive", "all", 3, nil)
 	add("tagged-exhaustive", "tags-x-tuples", 4, nil)
 	add("cross-function", "bytes-vs-ints-vs-tagged", 2, nil)
@@ -135,18 +133,14 @@ func c16Bytes(r *core.Result, part int) {
 	strs := c16Strings()
 	set := newDigestSet(r)
 	key := func(t [][]byte) string { return fmt.Sprintf("%x", t) }
-	// the partition is by (index of first element) mod 4; collisions across partitions are covered by the
-	// cross check below: every partition also hashes all tuples of length <=2 so that any two tuples that
-	// could collide (same total pre-image) meet in at least one partition
+	// one process hashes the whole space so that any two tuples meet in the same digest set
 	for i, a := range strs {
 		t1 := [][]byte{a}
 		set.add(common.SHA512_256(t1...), key(t1), "SHA512_256")
 		for _, b := range strs {
 			t2 := [][]byte{a, b}
 			set.add(common.SHA512_256(t2...), key(t2), "SHA512_256")
-			if i%4 != part {
-				continue
-			}
+			_ = i
 			for _, cc := range strs {
 				t3 := [][]byte{a, b, cc}
 				set.add(common.SHA512_256(t3...), key(t3), "SHA512_256")
